@@ -81,16 +81,16 @@ LONG_COMP = ("[xxxxxxxxxxxxxxxxxxxxxxxxx for xxxxxxxxxxxxxxxxxxxxxxxxx in yyyyyy
 KF_DEFAULTS = ['"x\\u00a0y"', '"x\\ufffey"']
 # open findings whose deviation is a specific wrong text: finding -> [(kind, written, shown, what is displayed meanwhile)]
 KF_TABLE: Dict[str, List[Tuple[str, str, str, str]]] = {
-    "regex-set-hyphen-unescaped": [("default", "re.compile(r'[a\\-z]')", "re.compile(r'[a\\-z]')", "re.compile(r'[a-z]')"),
-                                   ("default", "re.compile(r'[+\\-*/]+')", "re.compile(r'[+\\-*/]+')", "re.compile(r'[\\+-\\*/]+')")],
-    "regex-scoped-flags-dropped": [("default", "re.compile(r'(?i:a)b')", "re.compile(r'(?i:a)b')", "re.compile(r'(?:a)b')")],
     "regex-verbose-space-unescaped": [("default", "re.compile(r'[ ]x', re.X)", "re.compile(r'[ ]x', re.X)", "re.compile(r' x', re.X)")],
-    "annotated-metadata-unquoted": [("ann", 'typing.Annotated[int, "doc"]', "typing.Annotated[int, 'doc']", "typing.Annotated[int, doc]")],
     "literal-alias-unstringed": [("ann", 'Lit["a"]', "Lit['a']", "Lit[a]")],
 }
 # since /repo 5ae424f, f58c8a9, f1922c5: overflowing floats, values longer than astor's line width and string OPERANDS of
 # annotations are ordinary pool entries
 DEF_POOL += ["1e999", "-1e999", LONG_LAMBDA, LONG_COMP]
+# since /repo 373edf3, f8c859c, fdce633: an escaped '-' in a set, flags scoped to a group and string metadata of Annotated
+# are ordinary pool entries
+DEF_POOL += ["re.compile(r'[a\\-z]')", "re.compile(r'[+\\-*/]+')", "re.compile(r'(?i:a)b')", "re.compile(r'(?i-s:a.)b')"]
+ANN_POOL += [('typing.Annotated[int, "doc"]', "typing.Annotated[int, 'doc']"), ('typing.Annotated["Foo", "doc"]', "typing.Annotated[Foo, 'doc']")]
 # starred operands in displays and calls keep their parentheses; regular expressions are shown as the same expression
 DEF_POOL += ["[*(EXTRA or ()), 'x']", "(*(a if b else c), 1)", "[*(not a), b]", "f(*(a or b))", "[*a, *b]",
              "{**(a or b), 'k': 1}", "f(**(a or b))",
